@@ -66,8 +66,12 @@ def _run_once(ctx, n, big, tag):
 
 
 def _report_s3(ctx, s3, cases, tag):
+    seen_programs = set()
     for (ln, a, b) in s3:
         prog = _program_of(cases, ln)
+        if prog and prog[0] in seen_programs:
+            continue  # later differences in the same program are consequences of its first one
+        seen_programs.add(prog[0] if prog else None)
         opkind = cases[ln - 1].split(" ")[0] if ln - 1 < len(cases) else "?"
         ctx.violation("c09-result-" + opkind,
                       "multimap op result differs from the sorted-map-of-sorted-sets spec at op %r (program %s): impl=%s spec=%s"
